@@ -79,7 +79,7 @@ def numeric_grammar():
 
 def string_grammar():
     out = []
-    patterns = [None, "^[a-z]+$", "^[0-9]{2,4}$", "ab", "^(ab)+$", "^x?$", "[xyz]$", "^\\d{3}-\\d{2}$", "^(foo|bar)$"]
+    patterns = [None, "^[a-z]+$", "^[0-9]{2,4}$", "ab", "^(ab)+$", "^x?$", "[xyz]$", "^\\d{3}-\\d{2}$", "^(foo|bar)$", "[0-9]$", "\\d{2}$"]
     for lo, hi in itertools.product([None, 0, 1, 3], repeat=2):
         if lo is not None and hi is not None and lo > hi:
             continue
